@@ -117,6 +117,12 @@ func (f *fieldSelectionMergingVisitor) EnterField(ref int) {
 	fieldDefinitionTypeNode := f.definition.FieldDefinitionTypeNode(definition)
 	if fieldDefinitionTypeNode.Kind != ast.NodeKindScalarTypeDefinition {
 
+		// a selection of a scalar under the same response name can never have the same response shape
+		if scalarMatches := f.ScalarRequirementsByPathField(path, objectName); len(scalarMatches) > 0 {
+			f.reportTypesForFieldMismatch(objectName, f.scalarRequirements[scalarMatches[0]].fieldType, fieldType)
+			return
+		}
+
 		matchedRequirements := f.NonScalarRequirementsByPathField(path, objectName)
 		hasDifferentKindInRequirements := false
 		for _, i := range matchedRequirements {
@@ -194,6 +200,13 @@ func (f *fieldSelectionMergingVisitor) EnterField(ref int) {
 		return
 	}
 
+	// a selection of a non-scalar (object, interface, union, enum) under the same response name
+	// can never have the same response shape as a scalar
+	if nonScalarMatches := f.NonScalarRequirementsByPathField(path, objectName); len(nonScalarMatches) > 0 {
+		f.reportTypesForFieldMismatch(objectName, f.nonScalarRequirements[nonScalarMatches[0]].fieldTypeRef, fieldType)
+		return
+	}
+
 	matchedRequirements := f.ScalarRequirementsByPathField(path, objectName)
 	hasDifferentKindInRequirements := false
 
@@ -245,6 +258,20 @@ func (f *fieldSelectionMergingVisitor) EnterField(ref int) {
 		enclosingTypeDefinition: f.EnclosingTypeDefinition,
 		fieldTypeDefinitionNode: fieldDefinitionTypeNode,
 	})
+}
+
+func (f *fieldSelectionMergingVisitor) reportTypesForFieldMismatch(objectName ast.ByteSlice, leftType, rightType int) {
+	left, err := f.definition.PrintTypeBytes(leftType, nil)
+	if err != nil {
+		f.StopWithInternalErr(err)
+		return
+	}
+	right, err := f.definition.PrintTypeBytes(rightType, nil)
+	if err != nil {
+		f.StopWithInternalErr(err)
+		return
+	}
+	f.StopWithExternalErr(operationreport.ErrTypesForFieldMismatch(objectName, left, right))
 }
 
 // potentiallySameObject reports whether two enclosing type definitions could apply
